@@ -971,7 +971,7 @@ func (ex *Exec) reflectDeepEqual(a, b IfaceV, depth int) *Term {
 }
 
 func (ex *Exec) rde(a, b Value, t types.Type, depth int) *Term {
-	if depth > 12 {
+	if depth > 40 {
 		panic(unsupported{"DeepEqual too deep"})
 	}
 	switch x := a.(type) {
